@@ -2,6 +2,7 @@
 import random
 
 from harness import runner, tlc, isagen
+from checks import widepart
 
 PACK_INV = ['MachineEqualsLayout', 'LengthIsCeil8', 'EachFieldAtItsOffset', 'AlignedOnByteBoundary', 'PaddingIsZero',
             'LittleIsByteReversed', 'Emit']
@@ -75,7 +76,7 @@ def run(chk):
                 'arguments of 5/8/12 bits in default/big/little order, both reverse options) and checks GroupsInOrder and '
                 'ReverseTouchesOnlyItsGroup; for each layout an ISA definition is generated, the statement is assembled at two '
                 'different addresses in two different surrounding programs, and its bytes must equal the layout bytes. '
-                'Non-trivial = distinct field list / layout with at least two fields.')
+                '(c) seeded random field lists with widths 1..64 and arbitrary values (boundary-biased) are packed by the real code and each record is validated by spec/Trace_Pack.tla, which works on bit strings only (no 32-bit limit). Non-trivial = distinct field list / layout with at least two fields.')
     chk.assumptions = ['little-endian for a width that is not a multiple of 8: bytes least-significant first, the last byte contributing its low (w mod 8) bits',
                        'within the prefix group the first operand code is nearest to the opcode (order of the pinned commit)',
                        'each abstract operand is realised in rotation by register, enumeration, numeric_enumeration, numeric_bytecode, numeric, indirect_numeric, deferred_numeric, address, indirect_register with offset; relative_address and indexed registers are exercised by C12/C13']
@@ -118,4 +119,6 @@ def run(chk):
     e = lays[len(lays) // 2]
     isa, stmt, kinds = isagen.encode_isa(e['l'], e['variant'])
     chk.sample({'instance': 'encode', 'layout': e['l'], 'statement': stmt, 'operand_types': kinds, 'bytes': e['b']})
+    # (c) widths up to 64 bits and arbitrary 64-bit values, validated on bit strings
+    widepart.run_wide(chk, 4000 if quick else 80000)
     chk.exhaustive = not quick
